@@ -129,19 +129,51 @@ def instantiate(goal_ast, mapping):
                 return node
             if w not in mapping:
                 raise BadName(w)
-            return mapping[w]
+            return copy.deepcopy(mapping[w])     # one object per occurrence (ast.unparse keys levels by object)
     if isinstance(goal_ast, list):
         return [T().visit(copy.deepcopy(p)) for p in goal_ast]
     return T().visit(copy.deepcopy(goal_ast))
 
 
-def spec_expr(tree, pat, goal_ast, exact):
+def _mark(marks, piece):
+    """replace an inserted piece of code by an atomic marker name (marks: marker -> piece)"""
+    name = "__M%d__" % len(marks)
+    marks[name] = piece
+    return ast.Name(id=name, ctx=ast.Load())
+
+
+def insertion_fits(marked_tree, plain_tree, marks):
+    """C19_subst_meaning's condition, evaluated with CPython's own printer: every inserted piece (bound code in
+    a goal, a goal instance in the module) can stand where it is put without parentheses, i.e. printing the
+    tree with atomic markers and then putting the printed pieces in gives the print of the real tree.
+    None = the printer refuses one of the trees."""
+    def bare(piece):
+        # the text of the piece itself: ast.unparse parenthesises a top-level tuple / walrus / yield
+        text = ast.unparse(ast.fix_missing_locations(copy.deepcopy(piece)))
+        if isinstance(piece, (ast.Tuple, ast.NamedExpr, ast.Yield, ast.YieldFrom)) and text.startswith("(") \
+                and text.endswith(")") and not (isinstance(piece, ast.Tuple) and not piece.elts):
+            text = text[1:-1]
+        return text
+
+    try:
+        def expand(text):
+            return re.sub(r"__M\d+__", lambda m: expand(bare(marks[m.group(0)])), text)
+        return expand(ast.unparse(ast.fix_missing_locations(copy.deepcopy(marked_tree)))) == \
+            ast.unparse(ast.fix_missing_locations(copy.deepcopy(plain_tree)))
+    except (ValueError, AttributeError, TypeError, KeyError, RecursionError):
+        return None
+
+
+def spec_expr(tree, pat, goal_ast, exact, marks=None):
     inst = {id(nodes[0]): m for (_s, nodes, m) in c19.bf_find(tree, pat, exact)}
 
     def rw(node, force=False):
         if isinstance(node, ast.AST):
             if not force and id(node) in inst:
                 m = inst[id(node)]
+                if marks is not None:
+                    return _mark(marks, instantiate(goal_ast, {w: _mark(marks, rw(b, force=(b is node)))
+                                                               for w, b in m.items()}))
                 return instantiate(goal_ast, {w: rw(b, force=(b is node)) for w, b in m.items()})
             new = copy.copy(node)
             for f in node._fields:
@@ -154,7 +186,7 @@ def spec_expr(tree, pat, goal_ast, exact):
     return rw(tree), len(inst)
 
 
-def spec_stmts(tree, pat, goal_stmts, exact, only=None):
+def spec_stmts(tree, pat, goal_stmts, exact, only=None, marks=None):
     """only: None = every window greedily in text order per list; else the set of id(first stmt) of the
     windows to replace."""
     k = len(pat)
@@ -169,6 +201,8 @@ def spec_stmts(tree, pat, goal_stmts, exact, only=None):
             if len(w) == k and all(isinstance(x, ast.stmt) for x in w) and (only is None or id(w[0]) in only):
                 m = c19.bf_instance(pat, w, exact)
             if m is not None:
+                if marks is not None:
+                    m = {w: _mark(marks, b) for w, b in m.items()}
                 out.extend(instantiate(goal_stmts, m))
                 count[0] += 1
                 i += k
@@ -343,6 +377,19 @@ def classify(case, tree, pat, goal_ast, exact, instances, is_stmt, expected, sha
     # missing parenthesisation: the harness's own rewriting with every inserted piece parenthesised is right,
     # and rope's text is that rewriting up to parentheses and layout -- anything else wrong with the text
     # (other regions replaced, other text inserted) is not this finding
+    marks = {}
+    try:
+        if is_stmt:
+            marked, _ = spec_stmts(tree, pat, goal_ast, exact, marks=marks)
+            plain, _ = spec_stmts(tree, pat, goal_ast, exact)
+        else:
+            marked, _ = spec_expr(tree, pat, goal_ast, exact, marks=marks)
+            plain, _ = spec_expr(tree, pat, goal_ast, exact)
+        fit = insertion_fits(marked, plain, marks)
+    except BadName:
+        fit = None
+    if fit is True:
+        return "meaning"          # every inserted piece is fit for its position: parentheses cannot be the reason
     safe_text = safe_rewrite_text(case, tree, pat, exact, is_stmt)
     if safe_text is not None and new_text is not None:
         try:
@@ -457,7 +504,7 @@ def g_rcase(body_name, src_name, case, code, text):
     # for the _legacy lemmas
     return ("{| r_src := %s; r_body := %s; r_pat := %s; r_goal := %s; r_exact := [%s]; r_same := %s; r_sorted := %s; "
             "r_code := %d; r_text := %s |}" % (
-                src_name, body_name, c19.g_tree(pat), g_template(case["goal"]),
+                src_name, body_name, c19.g_tree(pat), c19.g_text(case["goal"]),
                 ";".join(c19.g_text(w) for w in exact), "true", "true", code, c19.g_text(text)))
 
 
@@ -540,7 +587,7 @@ def run(ctx):
         terms.append((modules[key][0], g_rcase(modules[key][0], modules[key][1], case, r["code"], r["text"]), idx))
     shard = 120
     bodies, imaps = [], []
-    header = c19.HEADER.replace("Tree Matcher Runner", "Tree Matcher Restructure Runner")
+    header = c19.HEADER
     for s in range(0, len(terms), shard):
         part = terms[s:s + shard]
         used = []
@@ -552,6 +599,7 @@ def run(ctx):
             if bn in used:
                 defs += "Definition %s : tree := %s.\nDefinition %s : list N := %s.\n" % (bn, tr, sn, tx)
         bodies.append(header + defs + "Definition cases : list rcase := [\n%s].\nEval vm_compute in (rmismatches cases).\n"
+                      "Eval vm_compute in (count_rdom cases).\nEval vm_compute in (count_rexpr cases).\n"
                       % ";\n".join(t for (_, t, _) in part))
         imaps.append([i for (_, _, i) in part])
     outs = ctx.coq_files_parallel(bodies) if bodies else []
@@ -560,6 +608,12 @@ def run(ctx):
         pairs = ctx.parse_pairs(out)
         for (i, code) in (pairs[0] if pairs else []):
             mism[imap[i]] = code
+        nums = ctx.parse_nums(out)
+        if len(nums) >= 2:
+            ctx.extra["restructure_cases_in_untouched_outside_expr_domain"] = \
+                ctx.extra.get("restructure_cases_in_untouched_outside_expr_domain", 0) + nums[-2][0]
+            ctx.extra["restructure_cases_with_expression_matches"] = \
+                ctx.extra.get("restructure_cases_with_expression_matches", 0) + nums[-1][0]
     for idx, (case, r) in enumerate(zip(cases, results)):
         replay = {k: case[k] for k in REPLAY_KEYS}
         if r["error"] is not None:
@@ -601,7 +655,28 @@ def run(ctx):
         if ctx.too_many(8):
             break
     if not ctx.too_many(8):
+        from harness import c19_prec
+        pairs = []
+        for case, r in zip(cases, results):
+            if r["error"] is not None:
+                continue
+            try:
+                pat = c19.parse_pattern(case["model"])
+                goal_ast = c19.parse_pattern(goal_model(case["goal"]))
+            except SyntaxError:
+                continue
+            if isinstance(pat, list) or isinstance(goal_ast, list):
+                continue
+            exact = set(case["exact"]) if case["driver"] == "restructure" else set()
+            inst = c19.bf_find(r["tree"], pat, exact)
+            if inst and wildcards_of(case["goal"]):
+                pairs.append((goal_ast, inst[0][2], {k: case[k] for k in REPLAY_KEYS}))
+        c19_prec.run(ctx, pairs)
+    if not ctx.too_many(8):
         run_make_pattern(ctx)
+    if not ctx.too_many(8):
+        from harness import c19_template
+        c19_template.run(ctx)
     for case, r in list(zip(cases, results))[22:24]:
         ctx.sample({"source": case["source"][:300], "pattern": case["user"], "goal": case["goal"], "driver": case["driver"],
                     "result": (r.get("text") or "")[:300] if r.get("code") == 1 else r.get("code")})
@@ -654,7 +729,7 @@ def run_make_pattern(ctx):
                 c19.g_text(c["source"]), c19.g_tree(r["tree"]),
                 ";".join(c19.g_text(v) for v in sorted(set(c["variables"]))), c19.g_text(r["got"])))
             imap.append(idx)
-    header = c19.HEADER.replace("Tree Matcher Runner", "Tree Matcher Restructure Runner")
+    header = c19.HEADER
     bodies, maps = [], []
     shard = 100
     for s0 in range(0, len(terms), shard):
@@ -693,6 +768,9 @@ def run_make_pattern(ctx):
 
 def replay(ctx, obj):
     kind = obj.get("kind")
+    if kind == "template":
+        from harness import c19_template
+        return c19_template.replay(ctx, obj)
     if kind == "make-pattern":
         r = run_make_pattern_case(obj)
         if r["error"] is not None:
